@@ -169,3 +169,28 @@ func genWire(r *hx.Rand, c cfgIn, values []string, extraNames []string) []wireHd
 }
 
 var upgradeValues = []string{"websocket", "websocket", "Websocket", "WebSocket", "WEBSOCKET"}
+
+// genConnection builds a client Connection header that names headers fabio maintains (any casing) mixed with
+// harmless tokens.
+func genConnection(r *hx.Rand, c cfgIn) wireHdr {
+	names := append([]string{}, managedNames[:7]...)
+	if c.CIP != "" {
+		names = append(names, c.CIP, c.CIP)
+	}
+	if c.TLSH != "" {
+		names = append(names, c.TLSH, c.TLSH)
+	}
+	if c.ReqID != "" {
+		names = append(names, c.ReqID)
+	}
+	var toks []string
+	for n := 1 + r.Intn(3); n > 0; n-- {
+		if r.Chance(1, 4) {
+			toks = append(toks, r.Pick([]string{"X-Other", "keep-alive", "", "Cookie", "close", "X-Tlsx"}))
+		} else {
+			toks = append(toks, caseVariant(r, r.Pick(names)))
+		}
+	}
+	sep := r.Pick([]string{", ", ",", " , ", ",\t"})
+	return wireHdr{caseVariant(r, "Connection"), sp(strings.TrimSpace(strings.Join(toks, sep)))}
+}
